@@ -37,7 +37,7 @@ type ProgBeh struct {
 
 func isAssert(op string) bool {
 	switch op {
-	case "AssertIsEqual", "AssertIsDifferent", "AssertIsBoolean", "AssertIsCrumb", "AssertIsLessOrEqual":
+	case "AssertIsEqual", "AssertIsDifferent", "AssertIsBoolean", "AssertIsCrumb", "AssertIsLessOrEqual", "PlonkGate":
 		return true
 	}
 	return false
@@ -54,6 +54,13 @@ type ProgCircuit struct {
 	// ConstBits: number of bits ToBinary with n = FieldBits asks for (field dependent)
 	FieldBits int `gnark:"-"`
 }
+
+// coefficient patterns of the PLONK-specific calls (specs/ApiSemantics.tla PlonkExprCoeffs / PlonkGateCoeffs)
+var (
+	PlonkExprCoeffs = [][4]int{{1, 2, 3, 4}, {0, 1, -1, 0}, {2, 0, 1, 5}}
+	PlonkGateCoeffs = [][5]int{{1, 1, -1, 0, 0}, {0, 0, -1, 1, 0}, {2, 3, -2, 1, 1}}
+	ErrNoPlonkAPI   = fmt.Errorf("builder has no PLONK-specific API")
+)
 
 // CaptureHint is a placeholder that is overridden per Solve with a closure recording its inputs.
 func CaptureHint(_ *big.Int, in, out []*big.Int) error {
@@ -144,6 +151,20 @@ func (c *ProgCircuit) run(api frontend.API) ([]frontend.Variable, error) {
 			temps = append(temps, api.IsZero(a[0]))
 		case "Cmp":
 			temps = append(temps, api.Cmp(a[0], a[1]))
+		case "PlonkExpr":
+			pa, ok := api.(frontend.PlonkAPI)
+			if !ok {
+				return nil, ErrNoPlonkAPI
+			}
+			q := PlonkExprCoeffs[ins.N-1]
+			temps = append(temps, pa.EvaluatePlonkExpression(a[0], a[1], q[0], q[1], q[2], q[3]))
+		case "PlonkGate":
+			pa, ok := api.(frontend.PlonkAPI)
+			if !ok {
+				return nil, ErrNoPlonkAPI
+			}
+			q := PlonkGateCoeffs[ins.N-1]
+			pa.AddPlonkConstraint(a[0], a[1], a[2], q[0], q[1], q[2], q[3], q[4])
 		case "AssertIsEqual":
 			api.AssertIsEqual(a[0], a[1])
 		case "AssertIsDifferent":
@@ -326,6 +347,21 @@ func EvalProg(prog []Instr, asg []*big.Int, mod *big.Int) OracleResult {
 			default:
 				push(n().Sub(mod, one))
 			}
+		case "PlonkExpr":
+			q := PlonkExprCoeffs[ins.N-1]
+			acc := n().Mul(big.NewInt(int64(q[0])), a[0])
+			acc.Add(acc, n().Mul(big.NewInt(int64(q[1])), a[1]))
+			acc.Add(acc, n().Mul(big.NewInt(int64(q[2])), n().Mul(a[0], a[1])))
+			acc.Add(acc, big.NewInt(int64(q[3])))
+			push(red(acc))
+		case "PlonkGate":
+			q := PlonkGateCoeffs[ins.N-1]
+			acc := n().Mul(big.NewInt(int64(q[0])), a[0])
+			acc.Add(acc, n().Mul(big.NewInt(int64(q[1])), a[1]))
+			acc.Add(acc, n().Mul(big.NewInt(int64(q[2])), a[2]))
+			acc.Add(acc, n().Mul(big.NewInt(int64(q[3])), n().Mul(a[0], a[1])))
+			acc.Add(acc, big.NewInt(int64(q[4])))
+			res.Ok = red(acc).Sign() == 0
 		case "AssertIsEqual":
 			res.Ok = a[0].Cmp(a[1]) == 0
 		case "AssertIsDifferent":
